@@ -151,6 +151,9 @@ impl Prop for C13 {
                     }
                 }
             }
+            // the compact text (no separator wherever two tokens may touch) against the canonical single-space text: the base
+            // itself may be the layout that is rejected, and then every single-boundary case compares Err with Err
+            out.push(Case { base_name: name.clone(), base: base.clone(), at: (0..toks.len() - 1).filter(|i| separable(&toks[*i], &toks[*i + 1]) && toks[*i + 1].text != ";").collect(), sep: String::new() });
             if tier.thorough() {
                 for (_, s) in separators() {
                     if s.is_empty() {
@@ -221,6 +224,6 @@ impl Prop for C13 {
                 discs.push(Disc::new(format!("layout|ctx={}|left={l}|right={r}|sep={}|exp={exp}|got={got}", context(&toks, i), sep_kind(&c.sep)), format!("base {} boundary {i}: base → {bclass}, edited → {eclass}\n--- edited text ---\n{edited}", c.base_name)));
             }
         }
-        CaseResult { discs, nontrivial: bclass.starts_with("ok"), outcome: format!("{}:{}", bclass.split(':').next().unwrap(), sep_class(&c.sep)), skipped: None }
+        CaseResult { discs, nontrivial: bclass.starts_with("ok") || eclass.starts_with("ok"), outcome: format!("{}:{}", bclass.split(':').next().unwrap(), sep_class(&c.sep)), skipped: None }
     }
 }
